@@ -31,6 +31,11 @@ func ssRHS(c ssCfg) []*R {
 	if c.funcs {
 		r = append(r, sub(cur(), call("type", av(cur()))), sub(cur(), call("abs", av(cur()))), sub(cur(), call("to_string", av(cur()))))
 	}
+	// right-hand sides that look outside their element: the root, an enclosing binding
+	r = append(r, sub(cur(), mlist(cur(), sub(&R{K: KRoot}, fld("b")))))
+	if c.lets {
+		r = append(r, sub(cur(), mlist(cur(), vr("$o"))))
+	}
 	return r
 }
 
@@ -42,7 +47,13 @@ func ssUnary(x *R, c ssCfg) []*R {
 		out = append(out, sub(x, fld("a")), idx(x, 0), idx(x, -1), idx(x, 1), sub(x, mlist(cur())), sub(x, mlist(fld("a"), cur())), sub(x, mhash(KV{"k", fld("a")})),
 			slc(x, ip(1), nil, nil, cur()), slc(x, nil, ip(-1), nil, cur()), slc(x, nil, nil, ip(-1), cur()), slc(x, nil, nil, ip(2), cur()))
 		for _, r := range ssRHS(c) {
-			out = append(out, proj(PList, x, r), proj(PFlatten, x, r), proj(PValues, x, r), filt(x, cur(), r), filt(x, fld("a"), r))
+			ps := []*R{proj(PList, x, r), proj(PFlatten, x, r), proj(PValues, x, r), filt(x, cur(), r), filt(x, fld("a"), r)}
+			if usesVar(r, "$o") {
+				for i, p := range ps {
+					ps[i] = let([]KV{{"$o", fld("b")}}, p)
+				}
+			}
+			out = append(out, ps...)
 		}
 		if c.funcs {
 			out = append(out, sub(x, call("type", av(cur()))), sub(x, call("length", av(cur()))))
@@ -61,6 +72,12 @@ func ssUnary(x *R, c ssCfg) []*R {
 		}
 	}
 	if c.lets {
+		out = append(out, let([]KV{{"$v", x}, {"$w", fld("a")}}, let([]KV{{"$v", fld("b")}}, mlist(vr("$v"), vr("$w")))),
+			let([]KV{{"$w", fld("b")}}, let([]KV{{"$v", x}, {"$w", fld("a")}}, let([]KV{{"$v", lit("n")}}, mlist(vr("$v"), vr("$w"))))),
+			let([]KV{{"$v", x}}, pipe(fld("a"), vr("$v"))), let([]KV{{"$v", x}}, pipe(vr("$v"), mlist(cur(), vr("$v")))))
+		if c.funcs {
+			out = append(out, let([]KV{{"$v", x}}, call("to_string", av(vr("$v")))), let([]KV{{"$v", x}}, call("type", av(vr("$v")))), let([]KV{{"$o", x}}, call("map", ar(mlist(cur(), vr("$o"))), av(fld("a")))))
+		}
 		out = append(out, let([]KV{{"$v", x}}, vr("$v")), let([]KV{{"$v", x}}, mlist(vr("$v"), cur())), let([]KV{{"$v", x}}, proj(PList, fld("a"), sub(cur(), mlist(cur(), vr("$v"))))),
 			let([]KV{{"$v", x}}, let([]KV{{"$w", fld("a")}}, mlist(vr("$v"), vr("$w")))), let([]KV{{"$v", fld("a")}}, let([]KV{{"$v", x}}, vr("$v"))), let([]KV{{"$v", fld("b")}}, mlist(let([]KV{{"$v", x}}, vr("$v")), vr("$v"))))
 	}
@@ -183,3 +200,31 @@ func smallScope(c ssCfg, perExpr int, depth3 int) []ssCase {
 }
 
 var _ = json.Number("")
+
+func usesVar(e *R, name string) bool {
+	if e == nil {
+		return false
+	}
+	if e.K == KVar && e.Name == name {
+		return true
+	}
+	if usesVar(e.L, name) || usesVar(e.Rt, name) || usesVar(e.Cond, name) {
+		return true
+	}
+	for _, x := range e.Es {
+		if usesVar(x, name) {
+			return true
+		}
+	}
+	for _, kv := range e.KEs {
+		if usesVar(kv.E, name) {
+			return true
+		}
+	}
+	for _, a := range e.Args {
+		if usesVar(a.E, name) {
+			return true
+		}
+	}
+	return false
+}
